@@ -12,7 +12,8 @@ RULE = (
     "Sub-check 'equations': specifications from U1 search scenarios (with statistics, equivalence paths, reverse "
     "rules from the forest database, enumeration-verified classes with rational series); every emitted equation "
     "that does not mention NOTIMPLEMENTED is checked. Sub-check 'genf': parameter-free specifications with <=14 "
-    "rules; get_genf() is called. Non-trivial: equations - at least one checked equation substitutes statistics "
+    "rules; get_genf() is called. Sub-check 'rule-equations': the equation of every single derived rule form of C09's "
+    "generator (incl. the reverse of products with three factors). Non-trivial: equations - at least one checked equation substitutes statistics "
     "(a class function applied to arguments other than its own variables) or comes from a reverse / path rule; "
     "genf - a closed form was returned and compared on 15 coefficients. Distinct = distinct canonical JSON."
 )
@@ -48,13 +49,18 @@ def series_poly(cls, N):
 
 
 def check_equations(ctx, spec, N):
-    from sympy.core.function import AppliedUndef
-
     try:
         eqs = list(spec.get_equations())
     except Exception as e:
         ctx.fail("get_equations", f"get_equations raised {describe_exc(e)}", f"get_equations/raises/{type(e).__name__}")
         return 0, False
+    return check_equation_list(ctx, eqs, spec, N)
+
+
+def check_equation_list(ctx, eqs, spec, N):
+    """``spec`` only needs get_comb_class(label)."""
+    from sympy.core.function import AppliedUndef
+
     cache = {}
     checked = 0
     interesting = False
@@ -64,10 +70,11 @@ def check_equations(ctx, spec, N):
         # the truncation error then shows up earlier, so the series are taken
         # further (by the valuation of the denominator) and the check stays at N.
         extra = 0
-        den_funcs = sympy.fraction(sympy.together(eq.rhs))[1].atoms(AppliedUndef)
-        for f in den_funcs:
+        den = sympy.fraction(sympy.together(eq.rhs))[1]
+        for f in den.atoms(AppliedUndef):
             try:
-                extra += spec.get_comb_class(int(f.func.__name__[2:])).minimum_size_of_object()
+                mult = max(1, int(sympy.degree(den, f)))  # the same class may divide twice
+                extra += mult * spec.get_comb_class(int(f.func.__name__[2:])).minimum_size_of_object()
             except Exception:
                 pass
         if any("NOTIMPLEMENTED" in f.func.__name__ for f in funcs):
@@ -135,6 +142,56 @@ def run_equations(case, ctx, tier="quick"):
         )
 
 
+class _Labels:
+    def __init__(self):
+        self.by_class, self.by_label = {}, {}
+
+    def get_label(self, c):
+        if c not in self.by_class:
+            self.by_class[c] = len(self.by_class)
+            self.by_label[self.by_class[c]] = c
+        return self.by_class[c]
+
+    def get_comb_class(self, label):
+        return self.by_label[label]
+
+    def get_function(self, c):
+        return c.get_function(self.get_label)
+
+
+def run_rule_equation(case, ctx):
+    """The equation of a single rule form (reverse of a product with three factors,
+    equivalence paths, ...) against the true series of its classes."""
+    from vf import ruleforms
+
+    try:
+        form, base, _ = ruleforms.build_form(case)
+    except (ruleforms.Refused, AssertionError):
+        ctx.label("refused")
+        return
+    labels = _Labels()
+    try:
+        eq = form.get_equation(labels.get_function)
+    except NotImplementedError:
+        ctx.label("equation-not-implemented")
+        return
+    except Exception as e:
+        ctx.fail("get_equation", f"get_equation raised {describe_exc(e)} for\n{form}", f"get_equation/raises/{type(e).__name__}")
+        return
+    if isinstance(eq, bool) or not hasattr(eq, "rhs"):
+        ctx.check(bool(eq), "equation", f"the equation of\n{form}\nevaluates to {eq}")
+        ctx.label("trivial-equation")
+        return
+    ctx.label("form:" + case["form"][0], "children:" + str(len(form.children)))
+    try:
+        ctx.label("ctor:" + type(form.constructor).__name__)
+    except Exception:
+        pass
+    N = 6 if len(form.comb_class.alphabet) <= 2 else 4
+    checked, interesting = check_equation_list(ctx, [eq], labels, N)
+    ctx.nontrivial = checked == 1 and (case["form"][0] != "plain" or interesting)
+
+
 def run_genf(case, ctx):
     from comb_spec_searcher.exception import IncorrectGeneratingFunctionError
 
@@ -187,6 +244,13 @@ def subchecks():
             run_case=run_equations,
             strategy=lambda tier: gen.scenario(tier, allow_pack=False),
             examples={"quick": 3000, "thorough": 40000},
+            case_timeout=40.0,
+        ),
+        SubCheck(
+            name="rule-equations",
+            run_case=run_rule_equation,
+            strategy=lambda tier: __import__("vf.ruleforms", fromlist=["form_case"]).form_case(tier),
+            examples={"quick": 3000, "thorough": 50000},
             case_timeout=40.0,
         ),
         SubCheck(
